@@ -181,10 +181,18 @@ def _check_own_store(path):
     product's loader; otherwise the stored format has changed and the harness is out of date."""
     if _store_checked["ok"]:
         return
-    from nsl import LinearIR
+    from nsl import Compiler, LinearIR
 
+    # probed with a trivial module of its own: a loader that chokes on a particular *program* is a
+    # violation, not a format change
+    probe = path + ".format-probe"
     try:
-        LinearIR.FilesystemModuleLoader().Load(path)
+        with core.Quiet():
+            pm = Compiler.Compiler().Compile("export function probe__(int a) -> int { return a; }")
+        with open(probe, "wb") as f:
+            pickle.dump(pm.IRModule, f)
+        LinearIR.FilesystemModuleLoader().Load(probe)
+        os.unlink(probe)
     except Exception as e:
         raise core.HarnessError(
             f"a module stored by the harness with pickle is not loadable by the product's loader "
